@@ -1,24 +1,48 @@
 # C10 — CBOR
-SRC = ["source/cbor.c", "source/byte_buf.c", "source/common.c", "source/error.c", "source/math.c",
+SRC = ["source/byte_buf.c", "source/common.c", "source/error.c", "source/math.c",
        "source/external/libcbor/cbor/encoding.c", "source/external/libcbor/cbor/streaming.c",
        "source/external/libcbor/cbor/internal/encoders.c", "source/external/libcbor/cbor/internal/loaders.c"]
 STUBS = ["base.c", "alloc_direct.c", "mem0.c"]
 
 
+def cbor_fp_restrictions():
+    """cbor_stream_decode invokes its callbacks through a struct of function pointers: 47 call sites, up to 12 type-compatible candidates
+    each for CBMC.  The restriction maps every call site (in source order, macros expanded with gcc -E on /repo's current streaming.c) to the
+    one function that source/cbor.c installs in s_callbacks for that field; any other target is turned into a failing assertion."""
+    import re, subprocess
+    repo = "/repo"
+    pre = subprocess.run(["gcc", "-E", "-P", "-I%s/source/external/libcbor" % repo, "-I%s/include" % repo, "-I%s/source/external/libcbor/cbor" % repo,
+                          "%s/source/external/libcbor/cbor/streaming.c" % repo], capture_output=True, text=True).stdout
+    body = pre[pre.index("cbor_stream_decode("):]
+    fields = re.findall(r"callbacks->(\w+)\s*\(", body)
+    cb = open("%s/source/cbor.c" % repo).read()
+    init = cb[cb.index("static struct cbor_callbacks s_callbacks"):]
+    init = init[:init.index("};")]
+    table = dict(re.findall(r"\.(\w+)\s*=\s*(\w+)", init))
+    return {"cbor_stream_decode.function_pointer_call.%d" % (i + 1): [table[f]] for i, f in enumerate(fields) if f in table}
+
+
 def mkunit(units, **d):
     name = "cb_" + "_".join("%s%s" % (k, v) for k, v in sorted(d.items()))
-    units[name] = dict(harness=["C10/h_cbor.c"], sources=SRC, stubs=STUBS, defines=d)
+    d = dict(d); d["VERIF_TYPED_CALLOC"] = None
+    units[name] = dict(harness=["C10/h_cbor.c"], sources=SRC, stubs=STUBS, defines=d, fp_restrict=FPR)
     return name
 
 
+FPR = {}
+
+
 def spec(tier):
+    global FPR
+    FPR = cbor_fp_restrictions()
     units, jobs = {}, []
     quick = tier == "quick"
     u = mkunit(units, L=2)
     jobs.append(dict(unit=u, entry="h_cbor_ints", unwind=10, bounds="value unconstrained 64-bit; uint/negint/tag/array/map heads", what="round trip, shortest head, independent reader agrees"))
     jobs.append(dict(unit=u, entry="h_cbor_float", unwind=10, timeout=240 if quick else 2400, bounds="every IEEE-754 double (bit pattern unconstrained)", what="smallest lossless form (int / single / double), value preserved, NaN/inf"))
     # NOTE: h_cbor_strings / h_cbor_simple_and_sequence / h_cbor_skip (encoder-driven multi-item harnesses) exhaust 12 GB in CBMC's
-    # propositional reduction (three cbor_stream_decode calls, each a 256-way switch); kept in the source, not run.
+    # propositional reduction (three cbor_stream_decode calls, each a 256-way switch); kept in the source, not run.  Restricting the 47
+    # callback call sites to their single real target and allocating encoder/decoder from typed pools (both in place) did not change that.
     meta = dict(functions_encoded=["source/cbor.c", "libcbor encoding.c, streaming.c, internal/encoders.c, internal/loaders.c"],
                 bounds="integers/doubles full range; strings up to 300/600 bytes; nesting depth 2/3; sequences of 3",
                 stubs=["ldexp (libm, half-float decoding only): nondet", "base.c, alloc_direct.c, mem0.c"],
